@@ -26,9 +26,9 @@ Modelled Python/NumPy printing (as far as it occurs here):
                   generation itself is an input (the harness computes the digits
                   independently of `repr` with a `%.{p}e` search).
   * `str(tuple)`, `str(list)` from already printed components;
-  * `repr(numpy.ndarray)` for 2-D float64/float32 arrays in positional notation
-    (`npRepr`, section NumPy below) including the `threshold=1000` summarisation and
-    `precision=8` rounding — the two sources of non-injectivity (DESIGN §7 F4).
+  * the evaluation points of an expression enter as
+    `f"{pts.dtype.str}{pts.shape}" + hashlib.sha1(pts.tobytes()).hexdigest()` (`pointsKey`); the
+    digest of the bytes is an uninterpreted parameter `digest`, like SHA-1 of the whole string.
 -/
 namespace Ffcx.Naming
 
@@ -239,8 +239,11 @@ def formTag (pre : Str) (formId : Int) : Str := tupleOf [reprStr pre, reprInt fo
 def integralTag (pre itype : Str) (formId : Int) (sub : List Scalar) : Str :=
   tupleOf [reprStr pre, reprStr itype, reprInt formId, tupleOf (sub.map reprScalar)]
 
-/-- expression_name passes the prefix itself as the tag. -/
-def expressionTag (pre : Str) : Str := pre
+/-- expression_name: `prefix` if `expression_id is None` else `str((prefix, expression_id))`
+(jit.compile_expressions and compute_ir always pass the position in the module). -/
+def expressionTag (pre : Str) : Option Int → Str
+  | none => pre
+  | some i => tupleOf [reprStr pre, reprInt i]
 
 section Names
 variable (sha1 : Str → Str) (reprP : P → Str) (env : Env)
@@ -259,8 +262,8 @@ def formPre (sig pre : Str) (formId : Int) : Str :=
 def integralPre (sig pre itype : Str) (formId : Int) (sub : List Scalar) : Str :=
   joinWith [';'] [sig, env.version, env.ufcxHash, cs! "form", integralTag pre itype formId sub]
 
-def expressionPre (sig : Str) (p : P) (pre : Str) : Str :=
-  joinWith [';'] [sig ++ reprP p, env.version, env.ufcxHash, cs! "expression", expressionTag pre]
+def expressionPre (sig : Str) (p : P) (pre : Str) (id : Option Int) : Str :=
+  joinWith [';'] [sig ++ reprP p, env.version, env.ufcxHash, cs! "expression", expressionTag pre id]
 
 def formName (sig pre : Str) (formId : Int) : Str := cs! "form_" ++ sha1 (formPre env sig pre formId)
 
@@ -272,8 +275,8 @@ def integralName (sig pre itype : Str) (formId : Int) (sub : List Scalar) : Str 
 def integralFactoryName (sig pre itype : Str) (formId : Int) (sub : List Scalar) (cell : Str) : Str :=
   integralName sha1 env sig pre itype formId sub ++ '_' :: cell
 
-def expressionName (sig : Str) (p : P) (pre : Str) : Str :=
-  cs! "expression_" ++ sha1 (expressionPre reprP env sig p pre)
+def expressionName (sig : Str) (p : P) (pre : Str) (id : Option Int) : Str :=
+  cs! "expression_" ++ sha1 (expressionPre reprP env sig p pre id)
 
 end Names
 
@@ -309,132 +312,28 @@ def validIdent : Str → Bool
 
 def isHexChar (c : Char) : Bool := isDigitC c || (97 ≤ c.toNat && c.toNat ≤ 102)
 
-/-! ## NumPy `repr(ndarray)` for 2-D floating arrays in positional notation
+/-! ## Evaluation points inside a signature
 
-`numpy._core.arrayprint` with the default print options
-(precision=8, threshold=1000, edgeitems=3, linewidth=75, floatmode='maxprec').
-
-Values are exact dyadic rationals `num / 2^k` (what `float.as_integer_ratio` returns).
-Supported domain (`npRepr` returns `none` outside it): at least one row, 1 ≤ columns ≤ 6 (no
-summarisation or line wrapping inside a row), all rows of equal length, all entries finite,
-positional notation (non-zero |x| within [1e-4, 1e8) and max/min ≤ 1000).
+naming.compute_signature:  `pts = np.ascontiguousarray(points)`;
+`object_signature += f"{pts.dtype.str}{pts.shape}"; object_signature += hashlib.sha1(pts.tobytes()).hexdigest()`.
+`B` is the type of byte strings (`pts.tobytes()`), `digest : B → Str` the hex SHA-1 of them.
 -/
 
-structure Dy where
-  num : Int
-  k : Nat
-  deriving Repr, DecidableEq, Inhabited
-
-namespace Dy
-
-/-- round-half-even of `a / b` for `b > 0`, `a ≥ 0`. -/
-def roundDiv (a b : Nat) : Nat :=
-  let q := a / b
-  let r := a % b
-  if 2 * r < b then q else if 2 * r > b then q + 1 else if q % 2 = 0 then q else q + 1
-
-/-- |x| · 10^p rounded half-even to an integer. -/
-def scaled (x : Dy) (p : Nat) : Nat := roundDiv (x.num.natAbs * 10 ^ p) (2 ^ x.k)
-
-/-- Does the decimal `m / 10^p` round (to nearest, ties to even) to |x| in a binary format with
-`prec` significand bits?  (Exponent range ignored; |x| ≠ 0.) -/
-def roundTrips (prec : Nat) (x : Dy) (m p : Nat) : Bool :=
-  -- |x| = n / 2^k ; ulp = 2^(log2 n - k - (prec-1)); compare |m/10^p - x| with ulp/2.
-  let n := x.num.natAbs
-  let lg := Nat.log2 n            -- floor(log2 n)
-  -- cross-multiplied by 10^p · 2^(k + prec) so that everything is an integer:
-  --   |m·2^k − n·10^p| · 2^prec   vs   2^lg · 10^p      ( = ulp/2 · 10^p · 2^(k+prec) )
-  let lhs := (if m * 2 ^ x.k ≥ n * 10 ^ p then m * 2 ^ x.k - n * 10 ^ p else n * 10 ^ p - m * 2 ^ x.k) * 2 ^ prec
-  let rhs := 2 ^ lg * 10 ^ p
-  -- significand of x (an integer < 2^prec when x is representable)
-  let sigEven := (n * 2 ^ (prec - 1 - lg)) % 2 = 0 || lg ≥ prec
-  -- below a power of two the lower gap is half as wide
-  let isPow2 := n = 2 ^ lg
-  let below := m * 2 ^ x.k < n * 10 ^ p
-  let rhs' := if isPow2 && below then rhs / 2 else rhs   -- (rhs is even whenever p ≥ 1 or lg ≥ 1)
-  if lhs < rhs' then true else if lhs = rhs' then sigEven else false
-
-/-- Number of fractional digits Dragon4 (unique mode, cut off at `maxp`) prints. -/
-def fracDigits (prec : Nat) (x : Dy) (maxp : Nat) : Nat :=
-  if x.num = 0 then 0 else
-  (List.range maxp).find? (fun p => roundTrips prec x (scaled x p) p) |>.getD maxp
-
-/-- `(integer part digits incl. sign, fractional digits)` of `dragon4_positional(x, precision=8,
-unique=True, fractional=True, trim='.')`. -/
-def positional (prec : Nat) (x : Dy) : Str × Str :=
-  let p := fracDigits prec x 8
-  let m := scaled x p
-  let ip := m / 10 ^ p
-  let fp := m % 10 ^ p
-  let fd := natDigits fp
-  let fd : Str := if p = 0 then [] else zeros (p - fd.length) ++ fd
-  -- trim='.' : trailing zeros removed (can appear after the cut-off rounding)
-  let fd := (fd.reverse.dropWhile (· = '0')).reverse
-  ((if x.num < 0 then ['-'] else []) ++ natDigits ip, fd)
-
-end Dy
-
-/-- A 2-D array: rows of dyadic values; `f32` selects float32 (24-bit significand, and the
-`dtype=float32` suffix). -/
-structure Points where
-  rows : List (List Dy)
-  f32 : Bool
+/-- A C-contiguous array as the signature sees it. -/
+structure Pts (B : Type) where
+  /-- `pts.dtype.str`, e.g. `<f8` -/
+  dtype : Str
+  /-- `pts.shape` -/
+  shape : List Nat
+  /-- `pts.tobytes()` -/
+  data : B
   deriving Repr, DecidableEq
 
-def Points.prec (p : Points) : Nat := if p.f32 then 24 else 53
+/-- `str(pts.shape)`: a tuple of ints. -/
+def shapeRepr (shape : List Nat) : Str := tupleOf (shape.map fun n => reprInt (Int.ofNat n))
 
-/-- Is |x|·10^a ≥ 10^b·… helpers on dyadics: compare |x| with a rational `c / d`. -/
-def Dy.absLt (x : Dy) (c d : Nat) : Bool := x.num.natAbs * d < c * 2 ^ x.k
-def Dy.absGe (x : Dy) (c d : Nat) : Bool := !x.absLt c d
-
-/-- |x| / |y| > r  (y ≠ 0) -/
-def Dy.ratioGt (x y : Dy) (r : Nat) : Bool := x.num.natAbs * 2 ^ y.k > r * y.num.natAbs * 2 ^ x.k
-
-def padLeft (w : Nat) (s : Str) : Str := List.replicate (w - s.length) ' ' ++ s
-def padRight (w : Nat) (s : Str) : Str := s ++ List.replicate (w - s.length) ' '
-
-/-- `repr(points)` or `none` outside the modelled domain. -/
-def npRepr (pts : Points) : Option Str :=
-  let rows := pts.rows
-  match rows with
-  | [] => none
-  | r0 :: _ =>
-    let d := r0.length
-    if d = 0 ∨ d > 6 ∨ rows.any (fun r => r.length ≠ d) then none else
-    let n := rows.length
-    -- a.size > threshold: only the leading/trailing `edgeitems` rows are looked at
-    let summarise := n * d > 1000
-    let shown := if summarise then rows.take 3 ++ rows.drop (n - 3) else rows
-    let vals := shown.flatten
-    let nz := vals.filter (fun x => x.num ≠ 0)
-    -- exponent notation is outside the model
-    let cutoffDigits := if pts.f32 then 6 else 8
-    if nz.any (fun x => x.absGe (10 ^ cutoffDigits) 1 || x.absLt 1 10000) then none else
-    if nz.any (fun x => nz.any (fun y => x.ratioGt y 1000)) then none else
-    let strs := vals.map (Dy.positional pts.prec)
-    let padL := (strs.map (fun s => s.1.length)).foldl max 0
-    let padR := (strs.map (fun s => s.2.length)).foldl max 0
-    let fmt (x : Dy) : Str :=
-      let s := Dy.positional pts.prec x
-      padLeft padL s.1 ++ ['.'] ++ padRight padR s.2
-    let fmtRow (r : List Dy) : Str := '[' :: (joinWith (cs! ", ") (r.map fmt) ++ [']'])
-    let sep : Str := cs! ",\n       "
-    let body : Str :=
-      if summarise then
-        joinWith sep ((rows.take 3).map fmtRow) ++ cs! ",\n       ...,\n       " ++
-          joinWith sep ((rows.drop (n - 3)).map fmtRow)
-      else joinWith sep (rows.map fmtRow)
-    -- _array_repr_implementation: extras (shape for summarised arrays, dtype if not the default)
-    -- go on the last line unless that would exceed linewidth = 75
-    let extras : List Str :=
-      (if summarise then [cs! "shape=(" ++ natDigits n ++ cs! ", " ++ natDigits d ++ cs! ")"] else []) ++
-      (if pts.f32 then [cs! "dtype=float32"] else [])
-    let arrStr : Str := cs! "array([" ++ body ++ [']']
-    if extras.isEmpty then some (arrStr ++ [')']) else
-    let arrStr := arrStr ++ [',']
-    let extraStr := joinWith (cs! ", ") extras ++ [')']
-    let lastLineLen := (arrStr.reverse.takeWhile (· ≠ '\n')).length
-    let spacer : Str := if lastLineLen + extraStr.length + 1 > 75 then cs! "\n      " else [' ']
-    some (arrStr ++ spacer ++ extraStr)
+/-- The text that stands for the evaluation points in the pre-hash string. -/
+def pointsKey {B : Type} (digest : B → Str) (p : Pts B) : Str :=
+  p.dtype ++ shapeRepr p.shape ++ digest p.data
 
 end Ffcx.Naming
